@@ -228,7 +228,7 @@ def _bfs_worker(args):
         snap = snapshot.snapshot()
         d = obs_diff(_SOLO[op_index], obs) if op_index is not None else None
         return dict(history=history, op=op_index, diff=d, state=snapshot.digest(snap), before=before, snap=snap if op_index is None or True else None)
-    except Exception as exc:
+    except (Exception, SystemExit) as exc:
         import traceback
         return dict(history=history, op=op_index, error='%s: %s' % (type(exc).__name__, str(exc)[:200]), tb=traceback.format_exc()[-1500:])
     finally:
@@ -251,15 +251,22 @@ def _solo_worker(args):
         shutil.rmtree(scratch, ignore_errors=True)
 
 
+def _solo_indexed(args):
+    return dict(index=args[0], obs=_solo_worker(args))
+
+
 def bfs(tier, nproc, acc):
     global _OPS, _SOLO
     _OPS = operations(tier)
     mp = multiprocessing.get_context('fork')
     texts()
     # reference: every operation alone in a fresh process
-    with mp.Pool(min(nproc, len(_OPS)), maxtasksperchild=1) as pool:
-        solos = pool.map(_solo_worker, [(i, 'stream') for i in range(len(_OPS))], chunksize=1)
-    _SOLO = dict(enumerate(solos))
+    from ..core import pmap_unordered
+    _SOLO = {}
+    for res in pmap_unordered(_solo_indexed, [(i, 'stream') for i in range(len(_OPS))], min(nproc, len(_OPS))):
+        if 'died' in res:
+            raise RuntimeError('solo run died: ' + res['died'][-500:])
+        _SOLO[res['index']] = res['obs']
     init = fresh(_bfs_worker, ([], None, tier))
     states = {init['state']: []}
     snaps = {init['state']: init['snap']}
@@ -272,8 +279,10 @@ def bfs(tier, nproc, acc):
     while frontier and depth < max_depth and len(states) <= max_states and len(acc.viols) < 40:
         jobs = [(h, i, tier) for h in frontier for i in range(len(_OPS))]
         nxt = []
-        with mp.Pool(min(nproc, len(jobs)), maxtasksperchild=1) as pool:
-            for res in pool.imap_unordered(_bfs_worker, jobs, chunksize=1):
+        if True:
+            for res in pmap_unordered(_bfs_worker, jobs, min(nproc, len(jobs))):
+                if 'died' in res:
+                    raise RuntimeError('history worker died: ' + res['died'][-500:])
                 transitions += 1
                 acc.n += 1
                 h, i = res['history'], res['op']
@@ -305,8 +314,10 @@ def bfs(tier, nproc, acc):
     jobs = [(h, i, tier) for h in seqs for i in range(len(_OPS) if len(h) == 1 else 0)] + \
            [(h, i, tier) for h in seqs if len(h) == 2 for i in [x for x, o in enumerate(_OPS) if x in h or o['name'] in ('tripeptide', 'cluster', 'zip-member-1')]]
     if len(acc.viols) < 40:
-        with mp.Pool(min(nproc, len(jobs)), maxtasksperchild=1) as pool:
-            for res in pool.imap_unordered(_bfs_worker, jobs, chunksize=1):
+        if True:
+            for res in pmap_unordered(_bfs_worker, jobs, min(nproc, len(jobs))):
+                if 'died' in res:
+                    raise RuntimeError('history worker died: ' + res['died'][-500:])
                 transitions += 1
                 acc.n += 1
                 h, i = res['history'], res['op']
